@@ -329,9 +329,19 @@ func drawHistory(rt *rapid.T, rec *core.Recorder, env *gen.Env) *historyCase {
 		}
 	}
 	nv := rapid.IntRange(2, 30).Draw(rt, "nvisits")
-	for i := 0; i < nv; i++ {
+	for len(hc.Visits) < nv {
 		pi := rapid.IntRange(0, n-1).Draw(rt, "prog")
-		fi := rapid.IntRange(0, len(hc.Progs[pi].Files)-1).Draw(rt, "file")
+		nf := len(hc.Progs[pi].Files)
+		// one step in three is a sweep over all files of the package in file order (what the
+		// command does for every package), so that the end of one file is followed by the start
+		// of the next file of the same package; the others are single visits in any order
+		if nf > 1 && rapid.IntRange(0, 2).Draw(rt, "sweep") == 0 {
+			for fi := 0; fi < nf; fi++ {
+				hc.Visits = append(hc.Visits, visit{pi, fi})
+			}
+			continue
+		}
+		fi := rapid.IntRange(0, nf-1).Draw(rt, "file")
 		hc.Visits = append(hc.Visits, visit{pi, fi})
 	}
 	return hc
